@@ -161,6 +161,34 @@ class _Patch:
 
 
 # ============================================================================ scenarios
+# The models treat values as opaque naturals that are only compared for equality.  In the real calls the
+# natural n stands for the n-th entry of these tables: falsy-but-valid values, values that look like sentinels,
+# non-ASCII text, nested containers, huge and negative numbers (all pairwise different in every representation
+# the code uses: Python equality, type, JSON text).
+STORE_VALUES = [0, 1, 2, 3, 4, 5, 6, "", {}, [], False, None, "Z\u00fcrich", ["j\u00f6rg", "zo\u00eb"],
+                {"k": "\u6a5f\u623f-1"}, -2 ** 63, 10 ** 30, "null", "0", True, "\u00e9\u00e8", [0], {"": ""}]
+CACHE_VALUES = [0, 1, 2, 3, 4, 5, 6, "", {}, [], False, "Z\u00fcrich", (), "None", -1, True]
+CACHE_KEYS = {7: "", 8: "\u00f6", 9: "9", 10: (1, 2), 11: b"k", 12: -1}      # other keys: the natural itself
+
+
+def _canon(v):
+    return (type(v).__name__, json.dumps(v, sort_keys=True, default=repr))
+
+
+def to_value(table, n):
+    return table[n] if n < len(table) else n
+
+
+def from_value(table, v):
+    cv = _canon(v)
+    for i, x in enumerate(table):
+        if _canon(x) == cv:
+            return i
+    if isinstance(v, int) and not isinstance(v, bool) and v >= len(table):
+        return v
+    return 9999          # a value the call was never given
+
+
 class Scenario:
     """common part: thread bodies, results, env thread"""
     files = ()
@@ -341,17 +369,18 @@ class CacheScenario(Scenario):
     def _do(self, call):
         op = call[0]
         c = self.cache
+        key = CACHE_KEYS.get(call[1], call[1]) if len(call) > 1 else None
         if op == 0:
-            v = c.get(call[1])
-            return [0] if v is None else [1, v]
+            v = c.get(key)
+            return [0] if v is None else [1, from_value(CACHE_VALUES, v)]
         if op == 1:
-            c[call[1]] = call[2]
+            c[key] = to_value(CACHE_VALUES, call[2])
             return [5]
         if op == 2:
-            return [2, 1 if call[1] in c else 0]
+            return [2, 1 if key in c else 0]
         if op == 3:
             try:
-                del c[call[1]]
+                del c[key]
                 return [5]
             except KeyError:
                 return [4]
@@ -361,7 +390,7 @@ class CacheScenario(Scenario):
             # an access whose inner step raises while the lock is held: the exception is the call's result
             _FAIL_FOR.add(threading.get_ident())
             try:
-                c.get(call[1])
+                c.get(key)
             except InjectedFault:
                 return [8]
             finally:
@@ -380,13 +409,22 @@ class CacheScenario(Scenario):
         return [[4]] + [[2, k] for k in keys]
 
 
-TEXT_RE = "(?P<id>[0-9]+);(?P<v>[0-9]+)"
+TEXT_RE = "(?P<id>[0-9]+);(?P<v>[^;]+)"
+
+
+def text_value(n):
+    """the value column: even naturals are written as digits, odd ones as non-ASCII text"""
+    return str(n) if n % 2 == 0 else f"w\u00e4rt-{n}-\u6a5f"
+
+
+def text_unvalue(sv):
+    return int(sv) if sv.isdigit() else int(sv.split("-")[1])
 
 
 def text_content(pairs, bad):
     if bad:
         return "garbage\n"
-    return "".join(f"{s};{v}\n" for s, v in pairs)
+    return "".join(f"{s};{text_value(v)}\n" for s, v in pairs)
 
 
 class TextScenario(Scenario):
@@ -451,8 +489,9 @@ class TextScenario(Scenario):
         try:
             if op in (0, 2):
                 data, _version = self.src.get_data(str(arg), {}, "")
-                return [1, int(data["v"])] if data else [0]
-            r = self.src.find_system("v", str(arg))
+                return [1, text_unvalue(data["v"])] if data else [0]
+            # 999 stands for a look-up value that is not hashable (the not-hashable index path)
+            r = self.src.find_system("v", ["x"] if arg == 999 else text_value(arg))
             return [0] if r is None else [1, int(r)]
         except ValueError as e:
             if "does not match" in str(e) or "Error while parsing" in str(e):
@@ -543,11 +582,11 @@ class StoreScenario(Scenario):
         st = self.store
         before = self.rec.guard_violations
         if op == 0:
-            st.set_value(str(call[1]), str(call[2]), call[3])
+            st.set_value(str(call[1]), str(call[2]), to_value(STORE_VALUES, call[3]))
             r = [5]
         elif op == 1:
             try:
-                r = [1, st.get_value(str(call[1]), str(call[2]))]
+                r = [1, from_value(STORE_VALUES, st.get_value(str(call[1]), str(call[2])))]
             except KeyError:
                 r = [4]
         elif op == 2:
@@ -555,7 +594,7 @@ class StoreScenario(Scenario):
             r = [5]
         elif op == 3:
             d = st.get_data(str(call[1]))
-            r = [6] + [x for k in sorted(d, key=int) for x in (int(k), d[k])]
+            r = [6] + [x for k in sorted(d, key=int) for x in (int(k), from_value(STORE_VALUES, d[k]))]
         elif op == 5:
             st.delete_data(str(call[1]))
             r = [5]
@@ -571,7 +610,7 @@ class StoreScenario(Scenario):
             finally:
                 _FAIL_FOR.discard(threading.get_ident())
         else:
-            r = [7] + sorted(int(s) for s in st.find_systems(str(call[1]), call[2]))
+            r = [7] + sorted(int(s) for s in st.find_systems(str(call[1]), to_value(STORE_VALUES, call[2])))
         if self.rec.guard_violations != before:
             return [10, 1]        # the connection was used outside the critical section
         return r
@@ -745,6 +784,10 @@ class C19(Check):
         # file absent during a delete-and-recreate), followed by more operations on the SAME object from the
         # same and from another thread; the failed call's answer is its exception, later calls complete and
         # see the current data
+        # find_system corners: a value carried by two systems (no unique match), a non-hashable look-up value
+        nu = {"comp": "text", "contents": [[(1, 20), (2, 20), (3, 31)], [(1, 20), (3, 31)]], "bad": [0, 0], "edits": [0],
+              "cache_enabled": 1}
+        out.append((dict(nu, calls=[[[1, 20], [1, 31], [1, 999]], [[1, 20], [0, 2]]]), b1))
         for badkind in (1, 2):
             fb = {"comp": "text", "contents": [[(1, 10)], [], [(1, 12)]], "bad": [0, badkind, 0], "edits": [0, 0],
                   "cache_enabled": 1}
@@ -762,6 +805,18 @@ class C19(Check):
                      "calls": [[[0], [0]], [[0]]]}, b1))
         ygb = [[[(1, 1)], [(0, 0)]], [[(3, 1)]]]
         out.append(({"comp": "yaml", "table": ygb, "tree": [0, 1], "w0": [0, 0], "edits": [0], "calls": [[[0], [0]]]}, b2))
+        # value corners (falsy, sentinel-like, non-ASCII, nested, huge): every value position of the store and
+        # of the cache; interleaving is irrelevant here, bound 1 suffices
+        vs = list(range(7, len(STORE_VALUES)))
+        for i in range(0, len(vs), 3):
+            a, b, cc = (vs + vs)[i:i + 3]
+            out.append(({"comp": "store", "calls": [[[0, 1, 1, a], [0, 2, 1, b], [4, 1, a], [4, 1, b], [1, 2, 1]],
+                                                    [[0, 3, 1, cc], [4, 1, cc], [3, 3], [0, 1, 1, b], [4, 1, b]]]}, 1))
+        cv = list(range(7, len(CACHE_VALUES)))
+        for i in range(0, len(cv), 3):
+            a, b, cc = (cv + cv)[i:i + 3]
+            out.append(({"comp": "cache", "cap": 3, "calls": [[[1, 7, a], [1, 8, b], [0, 7], [0, 8], [2, 9]],
+                                                              [[1, 10, cc], [0, 10], [3, 11], [1, 12, a], [0, 12]]]}, 1))
         # cache
         for cap, calls in ((1, [[[1, 1, 1], [0, 1]], [[1, 2, 2]]]),
                            (2, [[[1, 1, 1], [0, 1]], [[1, 2, 2], [1, 3, 3]]]),
